@@ -173,6 +173,12 @@ theorem get_mpo_tensor_spec (Lin Lout : ℕ) (raw : RawMpo K) (tin tout : Option
   ⟨mpoTensorOf_known _ (by decide) Lin Lout raw tin tout,
    mpoTensorOf_known _ (by decide) Lin Lout raw tin tout⟩
 
+/-- `BaseProcessTensor.__init__` stores each transform (and the trace vector made from it) whenever
+    THAT transform is given — independently of the other one: a process tensor with exactly one
+    transform keeps it. -/
+theorem transforms_stored_independently :
+    transformInGuard = ["transform_in"] ∧ transformOutGuard = ["transform_out"] := by decide
+
 /-- the leg closings of both `compute_caps` as written are consistent with what `get_mpo_tensor`
     returns: a stored tensor is closed with `_trace_in`, `_trace_out` (their elementwise product for
     the single in/out leg of a rank-3 tensor), a transformed tensor with `_trace`. -/
